@@ -54,7 +54,7 @@ func genCase(t *rapid.T) Case {
 	c.Names = rapid.SampledFrom([]int{1, 1, 2}).Draw(t, "names")
 	n := rapid.IntRange(2, 14).Draw(t, "nactions")
 	kinds := []string{"pub-rtmp", "pub-rtmp", "pub-rtmp", "pub-rtsp", "pub-customize", "input-leave", "input-leave", "sub", "sub", "sub-leave", "kick", "kick",
-		"pull-start", "pull-start", "pull-proceed", "pull-proceed", "pull-stop", "refused-sends"}
+		"pull-start", "pull-start", "pull-proceed", "pull-proceed", "pull-stop", "refused-sends", "tick", "tick"}
 	for i := 0; i < n; i++ {
 		a := Action{Kind: rapid.SampledFrom(kinds).Draw(t, "kind"), Name: rapid.IntRange(0, c.Names-1).Draw(t, "name"), Sel: rapid.IntRange(0, 7).Draw(t, "sel")}
 		if a.Kind == "sub" {
@@ -342,6 +342,11 @@ func (w *world) apply(ai int, a Action, st *streamModel) *pbt.Violation {
 			if w.origin.Attempts() != before {
 				return pbt.V("A1/pull-attempt-with-input", "%s: the origin saw a connection attempt although the stream already has an input", w.who(ai, a))
 			}
+			if st.in.kind != "pull" {
+				// the refused start still leaves the pull configured: lal would try it on a later tick or subscriber
+				// arrival once the input is gone, behind the model's back (retry rules are C17's subject)
+				w.disablePull(st)
+			}
 			return nil
 		}
 		if resp.ErrorCode != base.ErrorCodeSucc {
@@ -422,6 +427,16 @@ func (w *world) apply(ai int, a Action, st *streamModel) *pbt.Violation {
 			st.in = nil
 		} else if resp.ErrorCode == base.ErrorCodeSucc {
 			return pbt.V("pull-stop/success-without-pull", "%s: stop_relay_pull answered success (session %q) although no pull session is attached", w.who(ai, a), resp.Data.SessionId)
+		}
+	case "tick":
+		// what RunLoop's one-second ticker does to the groups (inactive groups are disposed and erased, the others
+		// ticked); tick number 1 keeps the periodic liveness sweep and the statistics out of it.  Nothing in the
+		// model changes: an accepted input, an attached subscriber or a pull in flight keeps its group alive, and
+		// the pulls of this check are disabled again as soon as their scripted attempt is over.
+		before := w.origin.Attempts()
+		s.Call("ServerManager tick", func() { s.SM.VerifTick(1) })
+		if st.pull == nil && w.origin.Attempts() != before {
+			lalclient.Harness("a tick started a pull attempt behind the model's back")
 		}
 	case "refused-sends":
 		// media from a refused publisher must reach no one (checked by the invariant's negative probe)
@@ -714,6 +729,13 @@ func classify(c Case) (bool, []string) {
 			} else {
 				labels = append(labels, "pull-start-with-input")
 				nt = true
+			}
+		case "tick":
+			for i := range pulls {
+				if pulls[i] && !inputs[i] {
+					labels = append(labels, "tick-while-pull-in-flight")
+					nt = true
+				}
 			}
 		case "pull-proceed":
 			if pulls[n] && inputs[n] {
